@@ -63,6 +63,7 @@ def run(ck):
     ck.clause("C15.1", "resolution results are the input segments or `segment - x`; __sub__/slice only take sub-sequences")
     ck.clause("C15.2", "pairwise pass over consecutive chain members, results written back in place")
     ck.clause("C15.3", "removed positions come from the own conflicting sub-segment; sub-segments are slices over the overlap")
+    ck.clause("C15.4", "slice window: drop what lies before `start` on both sequences; only an aligned pair beyond `end` closes the sub-run")
     seg = p.find_class("AlignmentSegment")
     base_pair = p.find_class("_SegmentPair")
     impls = [c for c in [base_pair] + p.all_subclasses(base_pair) if not c.module.is_test and "resolveConflict" in c.methods]
@@ -223,3 +224,60 @@ def run(ck):
             ck.judge(a.get("leftSegment") == me and a.get("rightSegment") == other, "C15.3", short(cfc) + ":no-conflict-order", w,
                      "without conflict both segments are passed through in order", found=T.show(v)[:120])
     pairwise_pass(ck, "C15.2")
+    slice_window(ck)
+
+
+def slice_window(ck):
+    """AlignmentSegment.slice: dropwhile(p.lessOnBothSequences(start)) then takewhile(unpaired or p.lessOrEqualOnAnySequence(end)).
+    Unpaired positions inside the overlap never close the conflicting sub-run: pairs behind them that still conflict on
+    the other sequence must be part of it."""
+    ctx = ck.ctx
+    p = ctx.p
+    seg = p.find_class("AlignmentSegment")
+    fn = p.lookup_method(seg, "slice", None)
+    prm = [pp.name for pp in fn.call_params()]
+    start, end = V(prm[0]), V(prm[1])
+    for pa in explore(ck, fn, unroll=(0, 1)):
+        if pa.outcome != "return" or pa.value[0] != "app":
+            continue
+        pos = dict(pa.value[3]).get("positions")
+        w = where(fn, pa.node)
+        inner = pos
+        while inner is not None and inner[0] == "call" and inner[1] in ("list", "tuple") and len(inner[2]) == 1:
+            inner = inner[2][0]
+        if not (inner is not None and inner[0] == "call" and inner[1].endswith("takewhile") and inner[2][1][0] == "call"
+                and inner[2][1][1].endswith("dropwhile")):
+            raise AnalysisError(f"{w}: slice window is not takewhile(.., dropwhile(.., self.positions)): {T.show(pos)[:200] if pos else None}")
+        tw, dw_call = inner[2]
+        dw, src = dw_call[2]
+        ck.judge(src == self_attr("positions"), "C15.4", short(fn) + ":source", w, "the window is cut from self.positions", found=T.show(src))
+
+        def pred_body(lam):
+            lv = min([x[1] for x in T.subterms(lam[2]) if x[0] == "bv"] or [0])
+            return T.as_bool(lam[2]), ("bv", lv)
+        if dw[0] != "lam" or tw[0] != "lam":
+            raise AnalysisError(f"{w}: window predicates are not lambdas")
+        dbody, dv = pred_body(dw)
+        tbody, tv = pred_body(tw)
+
+        def calls(body, name):
+            return [x for x in T.subterms(body) if (x[0] == "mcall" and x[2] == name) or (x[0] == "app" and x[1].endswith("." + name))]
+        d_ok = len(calls(dbody, "lessOnBothSequences")) == 1 and dbody[0] in ("mcall", "app") and \
+            (dbody[3] == (start,) if dbody[0] == "mcall" else list(dict(dbody[3]).values()) == [start])
+        ck.judge(d_ok, "C15.4", short(fn) + ":lower", w, "positions strictly before `start` on both sequences are dropped",
+                 found=T.show(dbody)[:160], required=f"p.lessOnBothSequences({prm[0]})")
+        parts = list(tbody[1]) if tbody[0] == "or" else [tbody]
+        le_calls = [x for x in parts if x[0] in ("mcall", "app") and "lessOrEqualOnAnySequence" in (x[2] if x[0] == "mcall" else x[1])]
+        unpaired = [x for x in parts if x[0] == "not" and x[1][0] == "call" and x[1][1] == "isinstance"
+                    and x[1][2][0] == tv and x[1][2][1][0] == "cls" and x[1][2][1][1].endswith(":AlignedPair")]
+        le_ok = len(le_calls) == 1 and (le_calls[0][3] == (end,) if le_calls[0][0] == "mcall" else list(dict(le_calls[0][3]).values()) == [end])
+        if le_ok and unpaired and len(parts) == 2:
+            ck.ok("C15.4", short(fn) + ":upper", w, "the sub-run continues over unpaired positions and over pairs that are <= `end` on any sequence",
+                  T.show(tbody)[:200])
+        elif le_ok and not unpaired and len(parts) == 1:
+            ck.violation("C15.4", short(fn) + ":upper", w, "an unpaired position beyond `end` on its own sequence closes the conflicting "
+                         "sub-run: aligned pairs behind it that still conflict on the other sequence are never trimmed (a label stays "
+                         "shared between two segments)", found=T.show(tbody)[:200],
+                         required=f"not isinstance(p, AlignedPair) or p.lessOrEqualOnAnySequence({prm[1]})")
+        else:
+            raise AnalysisError(f"{w}: upper window predicate not recognised: {T.show(tbody)[:200]}")
